@@ -11,6 +11,9 @@
 #define SL_EFF ((SSIDLEN) > 32 ? 32 : (SSIDLEN))
 
 static bool g_hello_seen;
+#ifdef HELLO_GENERIC
+static void oracle_hello_generic_chain(const vcfg *c, const uint8_t *f, size_t n);
+#endif
 
 /* expected value byte k of a big-endian 32-bit number */
 static uint8_t be32_byte(uint32_t v, unsigned k) { return (uint8_t)(v >> (24 - 8 * k)); }
@@ -29,82 +32,144 @@ static void oracle_hello(const vcfg *c, const uint8_t *f, size_t n) {
     V_ASSERT(mac6_eq(f + 34, in.frame + F_RSRC), "C03: Hello names the Discover's real source as current mapper");
     V_ASSERT(mac6_eq(f + 40, in.frame + F_ESRC), "C03: Hello names the Discover's Ethernet source as apparent mapper");
 
+#ifdef HELLO_GENERIC
+    oracle_hello_generic_chain(c, f, n);
+    return;
+#endif
     /* ---- C04 / C02: property list, positional */
     bool wifi = !c->wifi_fail;
     bool bss = wifi && !c->bssid_fail;
     size_t o = 46;
     /* 0x01 host id: first */
-    V_ASSERT(f[o] == 0x01 && f[o + 1] == 6, "C02,C04: host identifier comes first, length 6");
-    V_ASSERT(mac6_eq(f + o + 2, c->mac), "C04: host identifier is the interface's hardware address");
+    V_ASSERT(f[o] == 0x01 && f[o + 1] == 6, "C02,C04: host identifier comes first, length 6 (positional)");
+    V_ASSERT(mac6_eq(f + o + 2, c->mac), "C04: host identifier is the interface's hardware address (positional)");
     o += 8;
-    V_ASSERT(f[o] == 0x02 && f[o + 1] == 4, "C02,C04: characteristics property, length 4");
-    V_ASSERT(f[o + 2] == (uint8_t)(c->flags >> 8) && f[o + 3] == (uint8_t)c->flags && f[o + 4] == 0 && f[o + 5] == 0, "C04: characteristics flags in the upper 16 bits, big-endian");
+    V_ASSERT(f[o] == 0x02 && f[o + 1] == 4, "C02,C04: characteristics property, length 4 (positional)");
+    V_ASSERT(f[o + 2] == (uint8_t)(c->flags >> 8) && f[o + 3] == (uint8_t)c->flags && f[o + 4] == 0 && f[o + 5] == 0, "C04: characteristics flags in the upper 16 bits, big-endian (positional)");
     o += 6;
-    V_ASSERT(f[o] == 0x03 && f[o + 1] == 4, "C02,C04: physical medium property, length 4");
+    V_ASSERT(f[o] == 0x03 && f[o + 1] == 4, "C02,C04: physical medium property, length 4 (positional)");
     if (!c->iftype_fail)
-        V_ASSERT(f[o + 2] == be32_byte(c->iftype, 0) && f[o + 3] == be32_byte(c->iftype, 1) && f[o + 4] == be32_byte(c->iftype, 2) && f[o + 5] == be32_byte(c->iftype, 3), "C04: interface type big-endian");
+        V_ASSERT(f[o + 2] == be32_byte(c->iftype, 0) && f[o + 3] == be32_byte(c->iftype, 1) && f[o + 4] == be32_byte(c->iftype, 2) && f[o + 5] == be32_byte(c->iftype, 3), "C04: interface type big-endian (positional)");
     o += 6;
-    V_ASSERT(f[o] == 0x07 && f[o + 1] == 4, "C02,C04: IPv4 property, length 4");
+    V_ASSERT(f[o] == 0x07 && f[o + 1] == 4, "C02,C04: IPv4 property, length 4 (positional)");
     if (!c->ipv4_fail) {
         const uint8_t *ip = (const uint8_t *)&c->ipv4;       /* supplied in network order: bytes copied as they are */
-        V_ASSERT(f[o + 2] == ip[0] && f[o + 3] == ip[1] && f[o + 4] == ip[2] && f[o + 5] == ip[3], "C04: IPv4 address as supplied by the platform");
+        V_ASSERT(f[o + 2] == ip[0] && f[o + 3] == ip[1] && f[o + 4] == ip[2] && f[o + 5] == ip[3], "C04: IPv4 address as supplied by the platform (positional)");
     }
     o += 6;
-    V_ASSERT(f[o] == 0x08 && f[o + 1] == 16, "C02,C04: IPv6 property, length 16");
+    V_ASSERT(f[o] == 0x08 && f[o + 1] == 16, "C02,C04: IPv6 property, length 16 (positional)");
     if (!c->ipv6_fail) {
         bool same = true;
         for (int k = 0; k < 16; k++) if (f[o + 2 + k] != c->ipv6[k]) same = false;
-        V_ASSERT(same, "C04: IPv6 address as supplied by the platform");
+        V_ASSERT(same, "C04: IPv6 address as supplied by the platform (positional)");
     }
     o += 18;
-    V_ASSERT(f[o] == 0x0A && f[o + 1] == 8, "C02,C04: performance counter frequency property, length 8");
-    V_ASSERT(f[o + 2] == 0 && f[o + 3] == 0 && f[o + 4] == 0 && f[o + 5] == 0 && f[o + 6] == 0 && f[o + 7] == 0x0F && f[o + 8] == 0x42 && f[o + 9] == 0x40, "C04: fixed performance-counter frequency 1 000 000 big-endian");
+    V_ASSERT(f[o] == 0x0A && f[o + 1] == 8, "C02,C04: performance counter frequency property, length 8 (positional)");
+    V_ASSERT(f[o + 2] == 0 && f[o + 3] == 0 && f[o + 4] == 0 && f[o + 5] == 0 && f[o + 6] == 0 && f[o + 7] == 0x0F && f[o + 8] == 0x42 && f[o + 9] == 0x40, "C04: fixed performance-counter frequency 1 000 000 big-endian (positional)");
     o += 10;
-    V_ASSERT(f[o] == 0x0C && f[o + 1] == 4, "C02,C04: link speed property, length 4");
+    V_ASSERT(f[o] == 0x0C && f[o + 1] == 4, "C02,C04: link speed property, length 4 (positional)");
     if (!c->speed_fail)
-        V_ASSERT(f[o + 2] == be32_byte(c->speed, 0) && f[o + 3] == be32_byte(c->speed, 1) && f[o + 4] == be32_byte(c->speed, 2) && f[o + 5] == be32_byte(c->speed, 3), "C04: link speed big-endian");
+        V_ASSERT(f[o + 2] == be32_byte(c->speed, 0) && f[o + 3] == be32_byte(c->speed, 1) && f[o + 4] == be32_byte(c->speed, 2) && f[o + 5] == be32_byte(c->speed, 3), "C04: link speed big-endian (positional)");
     o += 6;
-    V_ASSERT(f[o] == 0x0F && f[o + 1] == HL_EFF, "C02,C04: machine name property, at most 32 bytes");
+    V_ASSERT(f[o] == 0x0F && f[o + 1] == HL_EFF, "C02,C04: machine name property, at most 32 bytes (positional)");
     {
         bool same = true;
         for (int k = 0; k < HL_EFF; k++) if (f[o + 2 + k] != g_plat.hostname[k]) same = false;
-        V_ASSERT(same, "C04: machine name bytes as supplied (first 32)");
+        V_ASSERT(same, "C04: machine name bytes as supplied (first 32) (positional)");
     }
     o += 2 + HL_EFF;
     if (wifi) {
-        V_ASSERT(f[o] == 0x04 && f[o + 1] == 1 && f[o + 2] == c->wifi_mode, "C04: wireless mode property on wireless interfaces");
+        V_ASSERT(f[o] == 0x04 && f[o + 1] == 1 && f[o + 2] == c->wifi_mode, "C04: wireless mode property on wireless interfaces (positional)");
         o += 3;
         if (bss) {
-            V_ASSERT(f[o] == 0x05 && f[o + 1] == 6 && mac6_eq(f + o + 2, c->bssid), "C04: BSSID property as supplied");
+            V_ASSERT(f[o] == 0x05 && f[o + 1] == 6 && mac6_eq(f + o + 2, c->bssid), "C04: BSSID property as supplied (positional)");
             o += 8;
         }
-        V_ASSERT(f[o] == 0x06 && f[o + 1] == SL_EFF, "C02,C04: SSID property, at most 32 bytes");
+        V_ASSERT(f[o] == 0x06 && f[o + 1] == SL_EFF, "C02,C04: SSID property, at most 32 bytes (positional)");
         {
             bool same = true;
             for (int k = 0; k < SL_EFF; k++) if (f[o + 2 + k] != c->ssid[k]) same = false;
-            V_ASSERT(same, "C04: SSID bytes as supplied (first 32)");
+            V_ASSERT(same, "C04: SSID bytes as supplied (first 32) (positional)");
         }
         o += 2 + SL_EFF;
-        V_ASSERT(f[o] == 0x09 && f[o + 1] == 2, "C02,C04: maximum rate property, length 2");
-        if (!c->rate_fail) V_ASSERT(f[o + 2] == (uint8_t)(c->rate >> 8) && f[o + 3] == (uint8_t)c->rate, "C04: maximum rate big-endian");
+        V_ASSERT(f[o] == 0x09 && f[o + 1] == 2, "C02,C04: maximum rate property, length 2 (positional)");
+        if (!c->rate_fail) V_ASSERT(f[o + 2] == (uint8_t)(c->rate >> 8) && f[o + 3] == (uint8_t)c->rate, "C04: maximum rate big-endian (positional)");
         o += 4;
-        V_ASSERT(f[o] == 0x0D && f[o + 1] == 4, "C02,C04: signal strength property, length 4");
+        V_ASSERT(f[o] == 0x0D && f[o + 1] == 4, "C02,C04: signal strength property, length 4 (positional)");
         if (!c->rssi_fail) {
             uint8_t ext = (c->rssi < 0) ? 0xFF : 0x00;
-            V_ASSERT(f[o + 2] == ext && f[o + 3] == ext && f[o + 4] == ext && f[o + 5] == (uint8_t)c->rssi, "C04: signal strength keeps its sign (sign-extended big-endian)");
+            V_ASSERT(f[o + 2] == ext && f[o + 3] == ext && f[o + 4] == ext && f[o + 5] == (uint8_t)c->rssi, "C04: signal strength keeps its sign (sign-extended big-endian) (positional)");
         }
         o += 6;
     }
-    V_ASSERT(f[o] == 0x14 && f[o + 1] == 4 && f[o + 2] == 0xE0 && f[o + 3] == 0 && f[o + 4] == 0 && f[o + 5] == 0, "C04: fixed QoS characteristics E0 00 00 00");
+    V_ASSERT(f[o] == 0x14 && f[o + 1] == 4 && f[o + 2] == 0xE0 && f[o + 3] == 0 && f[o + 4] == 0 && f[o + 5] == 0, "C04: fixed QoS characteristics E0 00 00 00 (positional)");
     o += 6;
-    V_ASSERT(f[o] == 0x0E && f[o + 1] == 0, "C02: icon image property is an empty large-property marker");
+    V_ASSERT(f[o] == 0x0E && f[o + 1] == 0, "C02: icon image property is an empty large-property marker (positional)");
     o += 2;
-    V_ASSERT(f[o] == 0x11 && f[o + 1] == 0, "C02: friendly name property is an empty large-property marker");
+    V_ASSERT(f[o] == 0x11 && f[o + 1] == 0, "C02: friendly name property is an empty large-property marker (positional)");
     o += 2;
-    V_ASSERT(f[o] == 0x00, "C02: property list ends with the end marker");
+    V_ASSERT(f[o] == 0x00, "C02: property list ends with the end marker (positional)");
     o += 1;
-    V_ASSERT(n == o, "C02: Hello ends exactly at its end marker (no trailing bytes)");
+    V_ASSERT(n == o, "C02: Hello ends exactly at its end marker (no trailing bytes) (positional)");
 }
+
+/* ---- stage 2: order-agnostic decoder. Used by the driver only when the positional oracle fails, so that a
+ * legal re-ordering of the properties (host identifier still first) is not reported: same per-type value
+ * rules, no type twice, mandatory set present, wireless set present iff wireless, end marker last byte. */
+#ifdef HELLO_GENERIC
+#define HG_MAX 24
+static void oracle_hello_generic_chain(const vcfg *c, const uint8_t *f, size_t n) {
+    bool wifi = !c->wifi_fail, bss = wifi && !c->bssid_fail;
+    bool seen[32]; for (int i = 0; i < 32; i++) seen[i] = false;
+    size_t o = 46; bool ended = false; unsigned count = 0;
+    for (unsigned i = 0; i < HG_MAX; i++) {
+        if (!ended) {
+            V_ASSERT(o < n, "C02: property list stays inside the frame");
+            if (o >= n) { ended = true; break; }
+            uint8_t t = f[o];
+            if (t == 0) { V_ASSERT(o + 1 == n, "C02: Hello ends exactly at its end marker"); ended = true; }
+            else {
+                V_ASSERT(o + 2 <= n, "C02: property header inside the frame");
+                uint8_t l = f[o + 1];
+                V_ASSERT(o + 2 + l <= n, "C02: property value inside the frame");
+                V_ASSERT(t < 32 && !seen[t & 31], "C02: no property type twice");
+                if (t < 32) seen[t] = true;
+                if (count == 0) V_ASSERT(t == 0x01, "C02,C04: host identifier comes first");
+                const uint8_t *v = f + o + 2;
+                switch (t) {
+                    case 0x01: V_ASSERT(l == 6 && mac6_eq(v, c->mac), "C04: host identifier is the interface's hardware address"); break;
+                    case 0x02: V_ASSERT(l == 4 && v[0] == (uint8_t)(c->flags >> 8) && v[1] == (uint8_t)c->flags && v[2] == 0 && v[3] == 0, "C04: characteristics flags in the upper 16 bits, big-endian"); break;
+                    case 0x03: V_ASSERT(l == 4, "C02: physical medium length 4");
+                               if (!c->iftype_fail) V_ASSERT(v[0] == be32_byte(c->iftype, 0) && v[1] == be32_byte(c->iftype, 1) && v[2] == be32_byte(c->iftype, 2) && v[3] == be32_byte(c->iftype, 3), "C04: interface type big-endian"); break;
+                    case 0x07: V_ASSERT(l == 4, "C02: IPv4 length 4");
+                               if (!c->ipv4_fail) { const uint8_t *ip = (const uint8_t *)&c->ipv4; V_ASSERT(v[0] == ip[0] && v[1] == ip[1] && v[2] == ip[2] && v[3] == ip[3], "C04: IPv4 address as supplied by the platform"); } break;
+                    case 0x08: V_ASSERT(l == 16, "C02: IPv6 length 16");
+                               if (!c->ipv6_fail) { bool same = true; for (int k = 0; k < 16; k++) if (v[k] != c->ipv6[k]) same = false; V_ASSERT(same, "C04: IPv6 address as supplied by the platform"); } break;
+                    case 0x0A: V_ASSERT(l == 8 && v[0] == 0 && v[1] == 0 && v[2] == 0 && v[3] == 0 && v[4] == 0 && v[5] == 0x0F && v[6] == 0x42 && v[7] == 0x40, "C04: fixed performance-counter frequency"); break;
+                    case 0x0C: V_ASSERT(l == 4, "C02: link speed length 4");
+                               if (!c->speed_fail) V_ASSERT(v[0] == be32_byte(c->speed, 0) && v[1] == be32_byte(c->speed, 1) && v[2] == be32_byte(c->speed, 2) && v[3] == be32_byte(c->speed, 3), "C04: link speed big-endian"); break;
+                    case 0x0F: { V_ASSERT(l == HL_EFF, "C02,C04: machine name at most 32 bytes"); bool same = true; for (int k = 0; k < HL_EFF; k++) if (v[k] != g_plat.hostname[k]) same = false; V_ASSERT(same, "C04: machine name bytes as supplied"); } break;
+                    case 0x04: V_ASSERT(wifi && l == 1 && v[0] == c->wifi_mode, "C04: wireless mode only on wireless interfaces, as supplied"); break;
+                    case 0x05: V_ASSERT(bss && l == 6 && mac6_eq(v, c->bssid), "C04: BSSID only on wireless interfaces, as supplied"); break;
+                    case 0x06: { V_ASSERT(wifi && l == SL_EFF, "C02,C04: SSID only on wireless interfaces, at most 32 bytes"); bool same = true; for (int k = 0; k < SL_EFF; k++) if (v[k] != c->ssid[k]) same = false; V_ASSERT(same, "C04: SSID bytes as supplied"); } break;
+                    case 0x09: V_ASSERT(wifi && l == 2, "C02: maximum rate only on wireless interfaces, length 2");
+                               if (!c->rate_fail) V_ASSERT(v[0] == (uint8_t)(c->rate >> 8) && v[1] == (uint8_t)c->rate, "C04: maximum rate big-endian"); break;
+                    case 0x0D: V_ASSERT(wifi && l == 4, "C02: signal strength only on wireless interfaces, length 4");
+                               if (!c->rssi_fail) { uint8_t ext = (c->rssi < 0) ? 0xFF : 0x00; V_ASSERT(v[0] == ext && v[1] == ext && v[2] == ext && v[3] == (uint8_t)c->rssi, "C04: signal strength keeps its sign"); } break;
+                    case 0x14: V_ASSERT(l == 4 && v[0] == 0xE0 && v[1] == 0 && v[2] == 0 && v[3] == 0, "C04: fixed QoS characteristics"); break;
+                    case 0x0E: V_ASSERT(l == 0, "C02: icon image marker is empty"); break;
+                    case 0x11: V_ASSERT(l == 0, "C02: friendly name marker is empty"); break;
+                    default: V_ASSERT(l <= 64, "C02: legal length for every other property type"); break;
+                }
+                o += 2 + (size_t)l; count++;
+            }
+        }
+    }
+    V_ASSERT(ended, "C02: a Hello's property list parses to its end marker");
+    V_ASSERT(seen[0x01] && seen[0x02] && seen[0x03] && seen[0x07] && seen[0x08] && seen[0x0A] && seen[0x0C] && seen[0x0F] && seen[0x14], "C04: every attribute of the interface is present in the Hello");
+    V_ASSERT(seen[0x04] == wifi && seen[0x06] == wifi && seen[0x09] == wifi && seen[0x0D] == wifi && seen[0x05] == bss, "C04: wireless attributes present exactly on wireless interfaces");
+}
+#endif
 
 void h_discover(void) {
     common_setup(0);
